@@ -297,6 +297,10 @@ SOLO_COMPOSITES = [
     L("str_unkfmt_max2", {"type": "string", "format": "hostname", "maxLength": 2}, enf=True, strish=True),
     L("map_minprops", {"type": "object", "additionalProperties": INT, "minProperties": 1}, enf=False),
     L("struct_bool_props", obj({"a": True, "b": False, "c": INT}, ["a"]), enf=False),
+    # sibling members whose in-line schemas carry ONE title but differ in content: the first type registered under the name is used for
+    # all of them (C02-KF4's defect), so which one that is must at least be a function of the document
+    L("same_title_inline", obj({"alpha": dict(obj({"a": STR}), title="Payload"), "bravo": dict(obj({"b": INT}), title="Payload"),
+                                "charlie": dict(obj({"c": BOOL}), title="Payload"), "delta": dict(obj({"d": INT}), title="Payload")}), ff=False, enf=False, sup=False),
     L("titled_inline", obj({"p": dict(obj({"x": INT}), title="Titled One"), "q": dict(obj({"y": INT}), title="titled_two")}), enf=True),
     # typed non-string enum over an object: a constrained newtype around an inner struct
     L("obj_enum", {"type": "object", "properties": {"label": STR}, "enum": [{"label": "a"}, {"label": "b"}]}, enf=True),
@@ -501,17 +505,20 @@ UNION_OPERANDS = {
     # operands that reach the other arms of schemas_mutually_exclusive: untyped enums, type lists, allOf / not wrappers
     "enum_int_untyped": {"enum": [1, 2]}, "str_or_null": {"type": ["string", "null"]}, "int_or_bool": {"type": ["integer", "boolean"]},
     "int_or_null": {"type": ["integer", "null"]},
+    "ref_enum": {"$ref": "#/definitions/XKind"}, "ref_enum2": {"$ref": "#/definitions/XMode"},   # string enums defined AFTER the union (names sort later)
+    "enum_int_typed": {"type": "integer", "enum": [1, 2]}, "deny_str": {"not": {"type": "string", "enum": ["all", "none"]}},
     "allof_str": {"allOf": [{"type": "string"}, {"maxLength": 3}]},
 }   # ({"const": "a"} is not an operand: typify documents that it ignores const, so every union with it is non-exclusive by construction)
-UNION_QUICK = ["null", "int", "str", "enum_ab", "vec_int", "arr13_str", "arr13_int", "tuple_is", "obj_p", "ref_str", "enum_int_untyped", "str_or_null", "int_or_null", "num"]
-_UNION_DEFS = {"XObj": obj({"s": STR, "n": INT}, ["s"]), "XLabel": {"type": "string"}}
+UNION_QUICK = ["null", "int", "str", "enum_ab", "vec_int", "arr13_str", "arr13_int", "tuple_is", "obj_p", "ref_str", "enum_int_untyped", "str_or_null", "int_or_null", "num", "deny_str", "ref_enum", "ref_enum2"]
+_UNION_DEFS = {"XObj": obj({"s": STR, "n": INT}, ["s"]), "XLabel": {"type": "string"}, "XKind": {"type": "string", "enum": ["k1", "k2"]},
+               "XMode": {"type": "string", "enum": ["m1", "m2"]}}
 _JTYPE = {"null": "null", "bool": "boolean", "int": "number", "num": "number", "str": "string", "str_max2": "string", "enum_ab": "string",
           "vec_int": "array", "vec_str": "array", "arr13_str": "array", "arr13_int": "array", "arr2_int": "array", "tuple_is": "array",
           "obj_p": "object", "obj_q_open": "object", "map_int": "object", "ref_obj": "object", "ref_str": "string",
-          "enum_int_untyped": "number", "int_or_null": "number|null", "str_or_null": "string|null", "int_or_bool": "number|boolean", "allof_str": "string"}
+          "enum_int_untyped": "number", "ref_enum": "string", "ref_enum2": "string", "enum_int_typed": "number", "deny_str": "string", "int_or_null": "number|null", "str_or_null": "string|null", "int_or_bool": "number|boolean", "allof_str": "string"}
 
 
-_MINI = [None, True, 0, 1, 2, 3, 1.5, "", "a", "abc", "0b9f1c1e-2d3a-4b5c-8d7e-6f5a4b3c2d1e", [], [1], [1, 2], [1, 2, 3, 4], ["a"], [1, "a"], ["a", "b"],
+_MINI = [None, True, 0, 1, 2, 3, 1.5, "", "a", "abc", "k1", "m1", "all", "0b9f1c1e-2d3a-4b5c-8d7e-6f5a4b3c2d1e", [], [1], [1, 2], [1, 2, 3, 4], ["a"], [1, "a"], ["a", "b"],
          {}, {"p": "x"}, {"q": 1}, {"s": "x"}, {"s": "x", "n": 1}, {"s": "x", "q": 1}, {"k": 1}]
 
 
@@ -534,8 +541,10 @@ def union_family(tier):
                 overlap = _overlap(UNION_OPERANDS[a], UNION_OPERANDS[b])
                 enf_ops = all(x not in ("map_int", "obj_q_open", "ref_obj", "arr13_str", "arr13_int") for x in (a, b))
                 sh = L("%s[%s,%s]" % (comb, a, b), {comb: [copy.deepcopy(UNION_OPERANDS[a]), copy.deepcopy(UNION_OPERANDS[b])]},
-                       ff=True, enf=enf_ops and (comb == "anyOf" or not overlap), fam=True,
-                       defs={k: v for k, v in _UNION_DEFS.items() if ("ref_obj" in (a, b) and k == "XObj") or ("ref_str" in (a, b) and k == "XLabel")})
+                       ff="deny_str" not in (a, b),   # {not: {type: string, enum}} also admits every non-string; typify reads it as "a string except .."
+                       enf=enf_ops and "deny_str" not in (a, b) and (comb == "anyOf" or not overlap), fam=True,
+                       defs={k: v for k, v in _UNION_DEFS.items() if ("ref_obj" in (a, b) and k == "XObj") or ("ref_str" in (a, b) and k == "XLabel")
+                             or ("ref_enum" in (a, b) and k == "XKind") or ("ref_enum2" in (a, b) and k == "XMode")})
                 sh["tg"] = {"un_comb": comb, "un_a": a, "un_b": b, "un_types": "+".join(sorted({_JTYPE[a], _JTYPE[b]})), "un_same_type": not disjoint,
                             "un_overlap": overlap}
                 sh["sup"] = all(x not in ("arr13_str", "arr13_int") for x in (a, b))   # schemars never emits a bounded, non-fixed array
@@ -551,6 +560,8 @@ REFINE_BASES = {
     "enum_abc": ({"type": "string", "enum": ["a", "bb", "ccc"]}, [{"enum": ["a"]}, {"enum": ["bb", "ccc"]}, {"maxLength": 2}, {"not": {"enum": ["a"]}}]),
     "int": (INT, [{"minimum": 0}, {"maximum": 255}, {"minimum": 1, "maximum": 10}, {"multipleOf": 2}, {"enum": [1, 2]}]),
     "u8": ({"type": "integer", "format": "uint8", "minimum": 0}, [{"minimum": 1}, {"maximum": 10}]),
+    "enum_int": ({"type": "integer", "enum": [1, 2, 3]}, [{"enum": [1, 2]}, {"not": {"enum": [3]}}, {"enum": [3, 4]}]),
+    "enum_num": ({"type": "number", "enum": [0.5, 1, 2.5]}, [{"enum": [0.5, 1]}, {"not": {"enum": [2.5]}}]),
     "vec_int": ({"type": "array", "items": INT}, [{"minItems": 1}, {"maxItems": 2}, {"minItems": 2, "maxItems": 2}, {"uniqueItems": True},
                                                   {"items": {"minimum": 0}}]),
     "obj": (obj({"s": STR, "n": INT}, ["s"]), [{"required": ["n"]}, {"properties": {"s": {"maxLength": 2}}}, {"properties": {"extra": BOOL}},
@@ -572,7 +583,7 @@ def refine_family(tier):
                         c = dict({"type": base["type"]}, **c)
                     first = {"$ref": "#/definitions/XBase"} if via == "ref" else copy.deepcopy(base)
                     ckeys = "+".join(sorted(con))
-                    enf = ((bname in ("str", "str_max4", "enum_abc") and "format" not in con) or (bname == "int" and "enum" in con)
+                    enf = ((bname in ("str", "str_max4", "enum_abc", "enum_int", "enum_num") and "format" not in con and "minimum" not in con) or (bname == "int" and "enum" in con)
                            or (bname == "vec_int" and ckeys == "maxItems+minItems")
                            or (bname == "obj" and ckeys in ("required", "additionalProperties")))
                     sh = L("refine[%s:%s%d:%s%s]" % (bname, ckeys, ci, via, ":typed" if typed else ""), {"allOf": [first, c]},
